@@ -97,7 +97,7 @@ def _check_on(c, case, stats: Stats) -> None:
 
 @st.composite
 def cases(draw, tier="quick"):
-    case = draw(S.scalar_cases(tier, ambiguous=True, prefix_free=False))
+    case = draw(S.scalar_cases(tier, ambiguous=True, prefix_free=False, prefix_no_delimiter=draw(st.integers(0, 3)) > 0))
     recs, d = case["spec"]["records"], case["spec"]["delimiter"]
     # strings that are both: (URI prefix that looks like a CURIE) + identifier
     ups = S.all_uri_prefixes(recs)
